@@ -28,7 +28,7 @@ VarU(n) == [k |-> "VarU", n |-> n]            \* VarUInteger n: length field of 
 VarI(n) == [k |-> "VarI", n |-> n]
 Grams == [k |-> "VarU", n |-> 16]
 Leq(n) == [k |-> "Leq", n |-> n]              \* #<= n
-AddrInt == [k |-> "AddrInt"]                  \* addr_std$10 without anycast: value [wc (8 bits), hash (256 bits)]
+AddrInt == [k |-> "AddrInt"]                  \* addr_std$10 anycast:(Maybe Anycast) workchain_id:int8 address:bits256: value [wc (8 bits), hash (256 bits), any (<<>> or <<rewrite_pfx bits, 1..30 of them>>)]
 AddrExt == [k |-> "AddrExt"]                  \* addr_none$00 | addr_extern$01 len:(## 9) bits: value <<>> or <<bits>>
 CC == [k |-> "CC"]                            \* CurrencyCollection: [grams (bytes), other (seq of [k (32 bits), v (bytes)])]
 Maybe(t) == [k |-> "Maybe", t |-> t]
@@ -78,7 +78,7 @@ RECURSIVE EncT(_, _, _), EncAlt(_, _), DictTree(_, _, _), ForkExtraV(_, _), Zero
 EncT(t, v, ctx) ==
     CASE t.k \in {"U", "I", "Bits", "Bool", "Leq", "Zero", "One", "UMax", "UPos"} -> Only(v)
       [] t.k \in {"VarU", "VarI"} -> Only(NatBits(Len(v), BitLen(t.n - 1)) \o ByteBits(v))
-      [] t.k = "AddrInt" -> Only(<<1, 0, 0>> \o v.wc \o v.hash)
+      [] t.k = "AddrInt" -> Only(<<1, 0>> \o (IF v.any = <<>> THEN <<0>> ELSE <<1>> \o NatBits(Len(v.any[1]), 5) \o v.any[1]) \o v.wc \o v.hash)
       [] t.k = "AddrExt" -> IF v = <<>> THEN Only(<<0, 0>>) ELSE Only(<<0, 1>> \o NatBits(Len(v[1]), 9) \o v[1])
       [] t.k = "CC" -> Cat(Only(NatBits(Len(v.grams), 4) \o ByteBits(v.grams)),
                            EncT(HmE(32, VarU(32)), v.other, ctx))
@@ -151,7 +151,8 @@ Leaves(t, v, ctx, path) ==
       [] t.k = "Bool" -> <<Leaf(path, t.k, [bool |-> v[1]])>>
       [] t.k = "VarU" -> <<Leaf(path, t.k, [int |-> BigOfBytes(v)])>>
       [] t.k = "VarI" -> <<Leaf(path, t.k, [int |-> BigOfSBytes(v)])>>
-      [] t.k = "AddrInt" -> <<Leaf(path, t.k, [addr |-> [wc |-> BitsIntSmall(v.wc), hash |-> BitsToBytes(v.hash)]])>>
+      [] t.k = "AddrInt" -> <<Leaf(path, t.k, [addr |-> [wc |-> BitsIntSmall(v.wc), hash |-> BitsToBytes(v.hash),
+                                                           any |-> IF v.any = <<>> THEN <<>> ELSE <<[len |-> Len(v.any[1]), v |-> BigOfUBits(v.any[1])]>>]])>>
       [] t.k = "AddrExt" -> <<Leaf(path, t.k, IF v = <<>> THEN [none |-> 1] ELSE [ext |-> [len |-> Len(v[1]), v |-> BigOfUBits(v[1])]])>>
       [] t.k = "CC" -> <<Leaf(Append(path, "grams"), "VarU", [int |-> BigOfBytes(v.grams)]),
                          Leaf(Append(path, "other"), "Dict", [dict |-> [i \in 1..Len(v.other) |->
@@ -228,8 +229,16 @@ DecT(t, sl, ctx) ==
             IF ~d.ok THEN Bad
             ELSE LET e == DecBits(d.sl, 8 * BitsNat(d.v)) IN IF ~e.ok THEN Bad ELSE Good(BitsToBytes(e.v), e.sl)
       [] t.k = "AddrInt" ->
-            LET d == DecBits(sl, 267) IN
-            IF d.ok /\ SubSeq(d.v, 1, 3) = <<1, 0, 0>> THEN Good([wc |-> SubSeq(d.v, 4, 11), hash |-> SubSeq(d.v, 12, 267)], d.sl) ELSE Bad
+            LET d == DecBits(sl, 3) IN
+            IF ~d.ok \/ SubSeq(d.v, 1, 2) # <<1, 0>> THEN Bad
+            ELSE IF d.v[3] = 0
+            THEN LET e == DecBits(d.sl, 264) IN
+                 IF ~e.ok THEN Bad ELSE Good([wc |-> SubSeq(e.v, 1, 8), hash |-> SubSeq(e.v, 9, 264), any |-> <<>>], e.sl)
+            ELSE LET dp == DecBits(d.sl, 5) IN
+                 IF ~dp.ok \/ BitsNat(dp.v) < 1 \/ BitsNat(dp.v) > 30 THEN Bad
+                 ELSE LET e == DecBits(dp.sl, BitsNat(dp.v) + 264)  n == BitsNat(dp.v) IN
+                      IF ~e.ok THEN Bad
+                      ELSE Good([wc |-> SubSeq(e.v, n + 1, n + 8), hash |-> SubSeq(e.v, n + 9, n + 264), any |-> <<SubSeq(e.v, 1, n)>>], e.sl)
       [] t.k = "AddrExt" ->
             LET d == DecBits(sl, 2) IN
             IF ~d.ok THEN Bad
